@@ -22,6 +22,7 @@ type metObs struct {
 	mu   sync.Mutex
 	recs []string
 	idx  map[string]int
+	kept []interface{ get() (int, int64) } // the Metrics values handed over, read again when the statement is done
 }
 
 func (o *metObs) add(attempt int, start, end time.Time, h *gocql.HostInfo, m interface{ get() (int, int64) }) {
@@ -33,23 +34,37 @@ func (o *metObs) add(attempt int, start, end time.Time, h *gocql.HostInfo, m int
 	}
 	a, t := m.get()
 	o.recs = append(o.recs, fmt.Sprintf("%d:%d:%d:%d:%d", hi, end.Sub(start).Nanoseconds(), a, t, attempt))
+	o.kept = append(o.kept, m)
+}
+
+// final: every record followed by what the Metrics value handed to the observer reads NOW (it is documented as a
+// snapshot: later attempts must not show in it)
+func (o *metObs) final() []string {
+	o.mu.Lock()
+	defer o.mu.Unlock()
+	out := make([]string, len(o.recs))
+	for i, r := range o.recs {
+		a, t := o.kept[i].get()
+		out[i] = fmt.Sprintf("%s:%d:%d", r, a, t)
+	}
+	return out
 }
 
 type hm struct {
-	a int
-	t int64
+	a *int
+	t *int64
 }
 
-func (h hm) get() (int, int64) { return h.a, h.t }
+func (h hm) get() (int, int64) { return *h.a, *h.t }
 
 func (o *metObs) ObserveQuery(_ context.Context, q gocql.ObservedQuery) {
-	o.add(q.Attempt, q.Start, q.End, q.Host, hm{q.Metrics.Attempts, q.Metrics.TotalLatency})
+	o.add(q.Attempt, q.Start, q.End, q.Host, hm{&q.Metrics.Attempts, &q.Metrics.TotalLatency})
 }
 func (o *metObs) ObserveBatch(_ context.Context, b gocql.ObservedBatch) {
-	o.add(b.Attempt, b.Start, b.End, b.Host, hm{b.Metrics.Attempts, b.Metrics.TotalLatency})
+	o.add(b.Attempt, b.Start, b.End, b.Host, hm{&b.Metrics.Attempts, &b.Metrics.TotalLatency})
 }
 
-// runMet returns the trace op: met <kind> <records h:latency:hostAttempts:hostTotal:attempt,...> <per execution count:Latency():Attempts(),...>
+// runMet returns the trace op: met <kind> <records h:latency:hostAttempts:hostTotal:attempt:hostAttemptsReadLater:hostTotalReadLater,...> <per execution count:Latency():Attempts(),...>
 func runMet(kind string, nhosts, reps int, table string, limit int, r *vh.Rng) string {
 	var ips []string
 	obs := &metObs{idx: map[string]int{}}
@@ -105,8 +120,8 @@ func runMet(kind string, nhosts, reps int, table string, limit int, r *vh.Rng) s
 		ends = append(ends, fmt.Sprintf("%d:%d:%d", n, st.latency(), st.attempts()))
 	}
 	recs := "-"
-	if len(obs.recs) > 0 {
-		recs = strings.Join(obs.recs, ",")
+	if fin := obs.final(); len(fin) > 0 {
+		recs = strings.Join(fin, ",")
 	}
 	return fmt.Sprintf("met %s %s %s", kind, recs, strings.Join(ends, ","))
 }
